@@ -2420,7 +2420,13 @@ func header() string {
    - calls of exported-named methods of unexported types from outside the analysed packages
      (they are treated as entry points, i.e. empty lockset: safe);
    - panics as control flow (a deferred function is assumed to run after a normal return);
-   - goto (empties the lockset, listed in [unknowns]).
+   Further rules: a label that is the target of a goto is treated as a loop head; a
+   function literal handed to sort.Slice & co. or sync.Once.Do runs in place; a local
+   p := &x.f[i] that is only dereferenced makes every use of p an access of x.f; fields of a
+   struct VALUE held in a local variable (a copy) are not accesses; &x.f passed directly as
+   a call argument and pointer-receiver calls on struct-valued foreign fields are KAddrArg
+   (a write during the call); any other &x.f, method values and unresolvable lock receivers
+   are KUnknown / listed in [unknowns].
    [fresh] = the object was allocated by a composite literal/new/var in the same function
    and has not been used other than through field selections before this access. *)
 `
